@@ -467,7 +467,22 @@ func (fx *Fx) coins(v ssa.Value, fr *Frame, depth int) []CoinAmt {
 	leaf := func() []CoinAmt {
 		t := fx.w.ts.Of(v, fr)
 		if typeIs(v.Type(), "github.com/cosmos/cosmos-sdk/types", "Coin") {
-			return []CoinAmt{{Denom: simplifyField(t, "Denom").LooseString(), Amt: fx.symForTerm(simplifyField(t, "Amount").LooseString(), false), Val: v}}
+			return []CoinAmt{{Denom: simplifyField(t, "Denom").LooseString(), Amt: fx.evalTerm(simplifyField(t, "Amount"), false, depth+1), Val: v}}
+		}
+		// coins(coin(d, a), …) as a term: the SSA-level construction was not followed (the
+		// coin travelled in a record through options or closures)
+		if t.Op == "call" && t.Name == "coins" && len(t.Args) > 0 {
+			var out []CoinAmt
+			for _, c := range t.Args {
+				if c.Op != "call" || c.Name != "coin" || len(c.Args) != 2 {
+					out = nil
+					break
+				}
+				out = append(out, CoinAmt{Denom: c.Args[0].LooseString(), Amt: fx.evalTerm(c.Args[1], false, depth+1), Val: v})
+			}
+			if out != nil {
+				return out
+			}
 		}
 		return []CoinAmt{{Denom: "*" + t.LooseString(), Amt: fx.symForTerm(t.LooseString(), false), Val: v}}
 	}
@@ -626,7 +641,106 @@ func (fx *Fx) Legend(r Rat) string {
 var e18 = new(big.Int).Exp(big.NewInt(10), big.NewInt(18), nil)
 
 func (fx *Fx) symFor(v ssa.Value, fr *Frame, dec bool) Rat {
-	return fx.symForTerm(fx.w.ts.Of(v, fr).LooseString(), dec)
+	// what the SSA-level evaluation could not follow (a value kept in a record that reached
+	// this frame through options, closures, interface routes) is read off its origin term:
+	// arithmetic in the term keeps its structure, everything else is a symbol as before
+	return fx.evalTerm(fx.w.ts.Of(v, fr), dec, 0)
+}
+
+// evalTerm: the value of an origin term; the leaves are symbols named by their loose text.
+func (fx *Fx) evalTerm(t *Term, dec bool, depth int) Rat {
+	if t == nil {
+		return fx.symForTerm("?nil", dec)
+	}
+	if depth > 40 {
+		return fx.symForTerm(t.LooseString(), dec)
+	}
+	arg := func(i int, d bool) Rat {
+		if i < len(t.Args) {
+			return fx.evalTerm(t.Args[i], d, depth+1)
+		}
+		return rConst(0)
+	}
+	constArg := func(i int) (int64, bool) {
+		if i < len(t.Args) && t.Args[i].Op == "const" {
+			var n int64
+			if _, err := fmt.Sscan(t.Args[i].Name, &n); err == nil && fmt.Sprint(n) == t.Args[i].Name {
+				return n, true
+			}
+		}
+		return 0, false
+	}
+	switch t.Op {
+	case "const":
+		var n int64
+		if _, err := fmt.Sscan(t.Name, &n); err == nil && fmt.Sprint(n) == t.Name {
+			return rConst(n)
+		}
+	case "call":
+		switch t.Name {
+		case "math.Int.Add":
+			return rAdd(arg(0, false), arg(1, false))
+		case "math.LegacyDec.Add":
+			return rAdd(arg(0, true), arg(1, true))
+		case "math.Int.Sub":
+			return rSub(arg(0, false), arg(1, false))
+		case "math.LegacyDec.Sub":
+			return rSub(arg(0, true), arg(1, true))
+		case "math.Int.Mul":
+			return rMul(arg(0, false), arg(1, false))
+		case "math.Int.Quo":
+			return fx.node("floor", rDiv(arg(0, false), arg(1, false)))
+		case "math.Int.AddRaw", "math.Int.SubRaw", "math.Int.MulRaw", "math.Int.QuoRaw":
+			if n, ok := constArg(1); ok {
+				switch t.Name {
+				case "math.Int.AddRaw":
+					return rAdd(arg(0, false), rConst(n))
+				case "math.Int.SubRaw":
+					return rSub(arg(0, false), rConst(n))
+				case "math.Int.MulRaw":
+					return rMul(arg(0, false), rConst(n))
+				default:
+					return fx.node("floor", rDiv(arg(0, false), rConst(n)))
+				}
+			}
+		case "math.OneInt", "math.LegacyOneDec":
+			return rConst(1)
+		case "math.ZeroInt", "math.LegacyZeroDec":
+			return rConst(0)
+		case "math.NewInt", "math.NewIntFromUint64", "math.LegacyNewDec":
+			if n, ok := constArg(0); ok {
+				return rConst(n)
+			}
+			return arg(0, false)
+		case "math.NewIntFromBigInt", "math.Int.BigInt", "math.LegacyNewDecFromInt", "math.LegacyDec.Clone", "math.LegacyNewDecFromBigInt":
+			return arg(0, false)
+		case "math.LegacyDec.BigInt":
+			return rMul(arg(0, true), rPoly(pBig(e18)))
+		case "math.LegacyDec.Mul", "math.LegacyDec.MulInt":
+			return fx.node("round", rMul(arg(0, true), arg(1, t.Name == "math.LegacyDec.Mul")))
+		case "math.LegacyDec.MulTruncate":
+			return fx.node("floor18", rMul(arg(0, true), arg(1, true)))
+		case "math.LegacyDec.Quo", "math.LegacyDec.QuoInt":
+			return fx.node("round", rDiv(arg(0, true), arg(1, t.Name == "math.LegacyDec.Quo")))
+		case "math.LegacyDec.QuoTruncate":
+			return fx.node("floor18", rDiv(arg(0, true), arg(1, true)))
+		case "math.LegacyDec.QuoRoundUp":
+			return fx.node("ceil18", rDiv(arg(0, true), arg(1, true)))
+		case "math.LegacyDec.TruncateInt", "math.LegacyDec.TruncateDec", "math.LegacyDec.TruncateInt64":
+			return fx.node("floor", arg(0, true))
+		case "math.LegacyDec.RoundInt", "math.LegacyDec.RoundInt64":
+			return fx.node("roundint", arg(0, true))
+		case "math.LegacyDec.Ceil":
+			return fx.node("ceil", arg(0, true))
+		}
+	}
+	// a pure irismod helper (a price function): evaluated in its body, on the call the term came from
+	if t.Op == "call" && t.src != nil && depth < 8 {
+		if r, ok := fx.evalCallee(t.src, t.fr, 0, depth+1); ok {
+			return r
+		}
+	}
+	return fx.symForTerm(t.LooseString(), dec)
 }
 
 // symForTerm allocates one symbol id per distinct loose term (ids contain no
